@@ -11,9 +11,9 @@ TEXT = {
          "every descendant's relative pose at every retained path index, for any nesting depth; child operations are local",
          "equal-path-length hypothesis as in the property; scipy Rotation assumed a group action; float effects observed by oracle (1e-8)",
          "Lean 4 theorems over a group acting on an additive group (refinement of the recursive move/_rotate to 'same rigid motion for all members'); differential correspondence on exact data"),
- "C11": ("proof (partial: acyclicity clause not yet proved): every operation of the tree-editing API, accepted or rejected, preserves "
-         "parent<->children consistency, uniqueness, and the typed views as ordered partitions, hence every reachable state is consistent",
-         "model looks holders up through _parent (code: DFS over children) - equal under the invariant; copy() under C18; acyclicity by oracle",
+ "C11": ("proof: every operation of the tree-editing API, accepted or rejected, preserves parent<->children consistency, uniqueness, the typed views as ordered partitions "
+         "and acyclicity (rank argument; soundness of the fuel-bounded self-reference check by pigeonhole), hence every reachable state is a consistent forest",
+         "model looks holders up through _parent (code: DFS over children) - equal under the invariant; copy() under C18",
          "Lean 4 invariant by induction over operation histories on a hand-written state-machine model; differential correspondence incl. rejected calls; invariant oracle on real objects"),
  "C03": ("proof: for every local field function, pose path and rigid motion, the frame change of getBH_level1 and the collection sum are covariant (position observers); "
          "model tied by exact correspondence; all 10 classes swept by the oracle",
